@@ -29,7 +29,7 @@ S(n) == ToString(n)
 
 \* ------------------------------------------------------------------ leaf templates (arity, returns)
 Leaves == {"add2", "sumloop", "sign", "print", "local", "bytes", "counted", "tablecheck", "max2",
-           "rotloop", "readint", "sbrk", "randrange", "tworet"}
+           "rotloop", "readint", "sbrk", "randrange", "tworet", "subframe"}
 Arity(k) == CASE k \in {"add2", "max2", "twice", "randrange"} -> 2 [] k \in {"tablecheck", "loadmax", "readint"} -> 0 [] OTHER -> 1
 Returns(k) == k # "print"
 
@@ -68,6 +68,10 @@ Leaf(n, k) ==
         << L(n \o ":", n \o ":label"), I("addi sp, sp, -16", n \o ":first"), I("sw s0, 8(sp)", n \o ":save-s0"), I("mv s0, a0", n \o ":def-s0"),
            I("beqz a0, " \o n \o "_zero", ""), I("add a0, s0, s0", ""), I("lw s0, 8(sp)", ""), I("addi sp, sp, 16", ""), I("ret", ""),
            L(n \o "_zero:", ""), I("li a0, 7", ""), I("lw s0, 8(sp)", n \o ":restore-s0"), I("addi sp, sp, 16", n \o ":free"), I("ret", n \o ":ret") >>
+    [] k = "subframe" ->  \* the frame is allocated by subtracting a constant held in a register and released with an lui-built constant
+        << L(n \o ":", n \o ":label"), I("li t0, 4096", ""), I("sub sp, sp, t0", n \o ":first"), I("sw s0, 8(sp)", n \o ":save-s0"),
+           I("mv s0, a0", n \o ":def-s0"), I("slli a0, s0, 1", ""), I("add a0, a0, s0", n \o ":retval"), I("lw s0, 8(sp)", n \o ":restore-s0"),
+           I("lui t1, 1", ""), I("add sp, sp, t1", n \o ":free"), I("ret", n \o ":ret") >>
     [] k = "readint" ->   \* the result comes from an environment call and is handed back untouched
         << L(n \o ":", n \o ":label"), I("li a7, 5", n \o ":first"), I("ecall", n \o ":ecall"), I("ret", n \o ":ret") >>
     [] k = "sbrk" ->      \* environment call whose result register is also its argument
